@@ -14,7 +14,8 @@ MODULES = ["GroupbyVerif.Props.C16"]
 RULE = ("seeded random datasets (1-2 keys incl. null keys and unused categories, <= 16 rows, boolean/no mask) x {var, std (ddof 0/1) on small integers "
         "(exact rational oracle), on int32/int64 values up to 7e8 in magnitude (group sums whose square leaves int64) and on floats with arbitrary offsets 0..1e8 and scales 1e-3..1e3 (error bound 16*n*eps*max|x|^2), median, quantile lists, "
         "apply with user functions returning a scalar / a fixed-length vector / an input-aligned vector, agg with a list of functions and with a single one (four function sets incl. median / size, with observed_only on and off on keys with unused categories), ratio, subset_ratio, "
-        "density (values and sizes, with and without margins)}; oracles: two-pass Fraction arithmetic, NumPy median/quantile on each group's selected values "
+        "density (values and sizes, with and without margins)}; var / std / ratio / subset_ratio / density on integral values are also compared with the Lean model "
+        "of the kernel combinations (driver op `composite`); oracles: two-pass Fraction arithmetic, NumPy median/quantile on each group's selected values "
         "in row order, the individual primitive calls; non-trivial = >= 2 groups, one with >= 3 values; distinct = distinct (dataset, op, parameters)")
 ASSUMPTIONS = ["np.median / np.quantile are the reference for quantiles (library calls them per group)",
                "the rounding bound constant 16 is a stated allowance, not derived (partial)"]
@@ -106,6 +107,42 @@ def evaluate(case, drv):
     def as_map(series):
         return {lab_of(l): v for l, v in series.items()}
 
+    # correspondence with the Lean model of the composite statistics (driver op `composite`): codes are the
+    # positions of the rows' label tuples among the sorted distinct non-null tuples
+    all_labs = sorted({tuple(col[i] for col in case["keys"]) for i in range(n) if not any(col[i] is None for col in case["keys"])})
+    code_of = {lab: j for j, lab in enumerate(all_labs)}
+    codes_tok = ",".join(str(code_of.get(tuple(col[i] for col in case["keys"]), -1)) if not any(col[i] is None for col in case["keys"]) else "-1"
+                         for i in range(n))
+
+    def vtok(arr):
+        return ",".join("_" if (isinstance(x, float) and math.isnan(x)) else str(int(x)) for x in arr.tolist())
+
+    def model_tie(line, got_map, post=lambda q: q, what=""):
+        """ask the driver; every label of got_map must carry the model's value (null = non-finite)"""
+        ans = drv.ask(line)["model"]
+        if ans == "error":
+            raise RuntimeError("model rejected " + line)
+        mod = [] if ans == "-" else ans.split(",")
+        res["tags"].append("model-tie")
+        for lab, g in got_map.items():
+            m = mod[code_of[lab]]
+            gnull = isinstance(g, float) and (math.isnan(g) or math.isinf(g))
+            if m == "_":
+                if not gnull:
+                    return dict(model=f"{lab}: null", actual=f"{lab}: {g}", line=line, note=f"{what}: value differs from the model")
+                continue
+            e = post(float(Fraction(m)))
+            if gnull or abs(float(g) - e) > 1e-9 * max(1.0, abs(e)):
+                return dict(model=f"{lab}: {e}", actual=f"{lab}: {g}", line=line, note=f"{what}: value differs from the model")
+        return None
+
+    def disagree(d):
+        res.update(verdict="disagreement", detail=dict(case=case, **d))
+        return res
+
+    mtok = "-" if case["mask"] is None else "b:" + ",".join("1" if b else "0" for b in case["mask"][1])
+    integral = all(v is None or float(v).is_integer() for v in case["vals"])
+
     try:
         gb = GroupBy(keys)
         if op in ("var", "std", "var_float", "var_int"):
@@ -129,6 +166,11 @@ def evaluate(case, drv):
                         return bad(f"{lab}: {exp} +- {bound:.3g}", g, error=abs(g - exp))
                 elif not abs(g - exp) <= 1e-9 * max(1.0, abs(exp)):
                     return bad(f"{lab}: {exp}", g)
+            if op in ("var", "std") and integral and n:
+                d = model_tie(f"composite op=var kind=f codes={codes_tok} vals={vtok(vals)} mask={mtok} threads=1 ng={len(all_labs)} ddof={case['ddof']}",
+                              got, post=(math.sqrt if op == "std" else (lambda q: q)), what=op)
+                if d:
+                    return disagree(d)
         elif op in ("median", "quantile"):
             if case["ncols"] == 2:
                 values = {"a": vals, "b": vals * 2}
@@ -216,6 +258,16 @@ def evaluate(case, drv):
                 g = r[lab]
                 if not ((math.isnan(e) and (math.isnan(g) or math.isinf(g))) or abs(g - e) <= 1e-12 * max(1, abs(e))):
                     return bad(f"{lab}: {e}", g)
+            if integral and n:
+                if op == "ratio":
+                    line = f"composite op=ratio kind=f codes={codes_tok} vals={vtok(vals)} vals2={vtok(v2)} mask={mtok} threads=1 ng={len(all_labs)}"
+                else:
+                    gtok = "-" if mask is None else ",".join("1" if b else "0" for b in mask.tolist())
+                    line = (f"composite op=subset_ratio kind=f codes={codes_tok} vals={vtok(vals)} subset={','.join('1' if b else '0' for b in sub.tolist())} "
+                            f"global={gtok} threads=1 ng={len(all_labs)}")
+                d = model_tie(line, r, what=op)
+                if d:
+                    return disagree(d)
         elif op in ("density", "density_size"):
             values = vals if op == "density" else None
             r = gb.density(values, mask=mask, margins=case["margins"])
@@ -236,6 +288,10 @@ def evaluate(case, drv):
                     return bad("shares add up to 100", sum(body.values()))
             if case["margins"] and (("All",) not in got or abs(got[("All",)] - total) > 1e-9):
                 return bad(f"All = {total}", got.get(("All",)))
+            if op == "density" and integral and n and total != 0:
+                d = model_tie(f"composite op=density kind=f codes={codes_tok} vals={vtok(vals)} mask={mtok} threads=1 ng={len(all_labs)}", body, what=op)
+                if d:
+                    return disagree(d)
     except Exception as e:  # noqa
         import traceback
         return bad("a result", f"error:{type(e).__name__}: {str(e)[:200]}", tb=traceback.format_exc()[-600:])
